@@ -101,7 +101,7 @@ def model_check(name, module, cfg, wd, workers=8, timeout=1800):
     return {"name": name, "states": dist, "transitions": gen, "wall_s": round(time.time() - t, 1)}
 
 
-VEC = re.compile(r'^<<"VEC", (".*")>>$')
+VEC = re.compile(r'^("VEC .*")$')
 
 
 def generate(name, module, cfg, wd, src, workers=8, timeout=1800, extra=(), env=None):
@@ -116,7 +116,7 @@ def generate(name, module, cfg, wd, src, workers=8, timeout=1800, extra=(), env=
     for line in out.splitlines():
         m = VEC.match(line)
         if m:
-            v = json.loads(json.loads(m.group(1)))
+            v = json.loads(json.loads(m.group(1))[4:])
             v["case"] = f"{name}-{len(vecs) + 1}"
             v["src"] = src
             vecs.append(v)
@@ -141,7 +141,7 @@ def harness_gen(group, seed, n, outp, timeout=600):
 
 
 # ----------------------------------------------------------------------------------------- judge
-BAD = re.compile(r'^<<"BAD", (\d+), (".*?"), \{(.*)\}>>$')
+BAD = re.compile(r'^"BAD (\d+) ([\w,]+)"$')
 DONE = re.compile(r'^<<"DONE", (\d+), (\d+)>>$')
 
 
@@ -155,10 +155,13 @@ def judge_chunk(args):
     for line in out.splitlines():
         m = BAD.match(line)
         if m:
-            bads.append((int(m.group(1)), json.loads(m.group(2)), re.findall(r'"([^"]+)"', m.group(3))))
+            bads.append((int(m.group(1)), "", m.group(2).split(",")))
         m = DONE.match(line)
         if m:
             done = (int(m.group(1)), int(m.group(2)))
+    if done is not None and done[1] != len(bads):
+        open(os.path.join(wd, f"judge_{idx}.out"), "w").write(out)
+        raise ToolError(f"validator reported {done[1]} rejected events but {len(bads)} BAD lines were parsed (chunk {idx})")
     if done is None or rc != 0:
         open(os.path.join(wd, f"judge_{idx}.out"), "w").write(out)
         raise ToolError(f"trace validation aborted on chunk {idx} (see {wd}/judge_{idx}.out)")
@@ -400,7 +403,7 @@ def setup():
             raise ToolError("SANY rejected " + m)
     log(f"setup ok: harness built, {len(mods)} modules parsed")
     from selftest import selftest
-    selftest()
+    selftest(sys.modules[__name__])
     return 0
 
 
